@@ -167,6 +167,48 @@ Theorem C08_validateStack_spec :
 Proof. exact validateStack_spec. Qed.
 Print Assumptions C08_validateStack_spec.
 
+(* ---- 2c. the whole dynamic-gas step of the interpreter: stack operands -> memory size of the step -> gas function on a
+   memory of w0 words charged C_mem(w0) = memory expansion fee + instruction formula, for MLOAD MSTORE MSTORE8 CREATE
+   RETURN/REVERT LOGn SHA3 and the copies, on the domain where the memory stays below 2^32 words ---- *)
+Theorem C08_step_gas :
+  (forall base w0 off len, 0 <= base < 2^32 -> 0 <= w0 < 2^32 -> word off -> word len ->
+  Mexp w0 off len < 2^32 ->
+  step_gas_base base w0 off len = Ok (mem_fee w0 off len + base, Cmem (Mexp w0 off len))) /\
+  (forall w0 off, 0 <= w0 < 2^32 -> word off -> Mexp w0 off 32 < 2^32 ->
+  match run_memorySize (calcMemSize off 32) with
+  | Ok ms => gasMLoad (32 * w0) (Cmem w0) ms | Err e => Err e | Panic => Panic end
+  = Ok (mem_fee w0 off 32 + 3, Cmem (Mexp w0 off 32))) /\
+  (forall w0 off, 0 <= w0 < 2^32 -> word off -> Mexp w0 off 32 < 2^32 ->
+  match run_memorySize (calcMemSize off 32) with
+  | Ok ms => gasMStore (32 * w0) (Cmem w0) ms | Err e => Err e | Panic => Panic end
+  = Ok (mem_fee w0 off 32 + 3, Cmem (Mexp w0 off 32))) /\
+  (forall w0 off, 0 <= w0 < 2^32 -> word off -> Mexp w0 off 1 < 2^32 ->
+  match run_memorySize (calcMemSize off 1) with
+  | Ok ms => gasMStore8 (32 * w0) (Cmem w0) ms | Err e => Err e | Panic => Panic end
+  = Ok (mem_fee w0 off 1 + 3, Cmem (Mexp w0 off 1))) /\
+  (forall w0 off len, 0 <= w0 < 2^32 -> word off -> word len -> Mexp w0 off len < 2^32 ->
+  match run_memorySize (calcMemSize off len) with
+  | Ok ms => gasCreate (32 * w0) (Cmem w0) ms | Err e => Err e | Panic => Panic end
+  = Ok (mem_fee w0 off len + 32000, Cmem (Mexp w0 off len))) /\
+  (forall w0 off len, 0 <= w0 < 2^32 -> word off -> word len -> Mexp w0 off len < 2^32 ->
+  match run_memorySize (calcMemSize off len) with
+  | Ok ms => gasReturn (32 * w0) (Cmem w0) ms | Err e => Err e | Panic => Panic end
+  = Ok (mem_fee w0 off len, Cmem (Mexp w0 off len))) /\
+  (forall n w0 off len, 0 <= n <= 4 -> 0 <= w0 < 2^32 -> word off -> word len ->
+  Mexp w0 off len < 2^32 ->
+  step_gas_log n w0 off len = Ok (mem_fee w0 off len + G_log n len, Cmem (Mexp w0 off len))) /\
+  (forall w0 off len, 0 <= w0 < 2^32 -> word off -> word len -> Mexp w0 off len < 2^32 ->
+  match run_memorySize (calcMemSize off len) with
+  | Ok ms => gasSha3 (32 * w0) (Cmem w0) ms len | Err e => Err e | Panic => Panic end
+  = Ok (mem_fee w0 off len + G_sha3 len, Cmem (Mexp w0 off len))) /\
+  (forall w0 off len, 0 <= w0 < 2^32 -> word off -> word len -> Mexp w0 off len < 2^32 ->
+  match run_memorySize (calcMemSize off len) with
+  | Ok ms => gasCallDataCopy (32 * w0) (Cmem w0) ms len | Err e => Err e | Panic => Panic end
+  = Ok (mem_fee w0 off len + G_copy len, Cmem (Mexp w0 off len))) /\
+  (gasCodeCopy = gasCallDataCopy /\ gasReturnDataCopy = gasCallDataCopy).
+Proof. exact step_gas_all. Qed.
+Print Assumptions C08_step_gas.
+
 (* ---- 3. JUMPDEST analysis: never panics; a destination is accepted iff it is a JUMPDEST that starts an instruction ---- *)
 
 Theorem C08_has_no_panic :
@@ -444,3 +486,107 @@ Example C08_example :
   has [0x60; 0x5b; 0x5b] 2 = Ok true /\ has [0x60; 0x5b; 0x5b] 1 = Ok false /\
   oi_valid (spec_op Homestead 0x1d) = false /\ oi_valid (spec_op Spring 0x1d) = true.
 Proof. vm_compute. repeat split; try reflexivity; discriminate. Qed.
+
+(* Interp is imported only here: it reuses some names of OpsSpec / OpsModel (G_log, CallStipend, ...) *)
+From AQ Require Import Evm.Interp Evm.OpsProofsState.
+
+(* ---- 3e. execution of the state-touching instructions, stated about the instruction bodies `exec` of the interpreter
+   model AQ.Evm.Interp (C07) with its world's getters as the abstract state: the world obeys the storage / balance / log
+   laws; SLOAD SSTORE BALANCE EXTCODESIZE EXTCODECOPY LOGn SELFDESTRUCT do what the Yellow Paper defines; evm.Call's
+   entry conditions, the return tail of the CALL family, the stipend, the 63/64 rule of CREATE.  NOT stated here: an
+   end-to-end specification of a CALL / CREATE including the callee's run (C07's invariants cover gas, depth, revert). ---- *)
+Theorem C08_state_laws :
+  (forall w a k v a' k',
+  get_state (set_state w a k v) a' k' = if (a' =? a) && (k' =? k) then v else get_state w a' k') /\
+  (forall w a k v a',
+  get_balance (set_state w a k v) a' = get_balance w a' /\
+  get_code (set_state w a k v) a' = get_code w a' /\
+  get_nonce (set_state w a k v) a' = get_nonce w a') /\
+  (forall w a x a',
+  get_balance (add_balance w a x) a' = if a' =? a then get_balance w a + x else get_balance w a') /\
+  (forall w l,
+  w_logs (add_log w l) = l :: w_logs w /\ w_accts (add_log w l) = w_accts w /\ w_refund (add_log w l) = w_refund w).
+Proof. exact state_laws_all. Qed.
+Print Assumptions C08_state_laws.
+
+Theorem C08_state_ops :
+  (forall rec e w fr temp loc r, f_stack fr = loc :: r -> word loc ->
+  exec rec e w fr E_sload temp = X_ok w (set_stack fr (get_state w (f_self fr) loc :: r)) []) /\
+  (forall rec e w fr temp loc v r, f_stack fr = loc :: v :: r -> word loc -> word v ->
+  exec rec e w fr E_sstore temp = X_ok (set_state w (f_self fr) loc v) (set_stack fr r) []) /\
+  (forall rec e w fr temp a r, f_stack fr = a :: r -> word a ->
+  exec rec e w fr E_balance temp = X_ok w (set_stack fr (get_balance w (a mod 2 ^ 160) :: r)) []) /\
+  (forall rec e w fr temp a r, f_stack fr = a :: r -> word a ->
+  exec rec e w fr E_extcodesize temp = X_ok w (set_stack fr (blen (get_code w (a mod 2 ^ 160)) :: r)) []) /\
+  (forall rec e w fr temp a memOff codeOff len r,
+  f_stack fr = a :: memOff :: codeOff :: len :: r -> word a -> word codeOff ->
+  0 <= memOff -> 0 <= len -> memOff + len <= blen (f_mem fr) -> blen (f_mem fr) < 2 ^ 62 ->
+  blen (get_code w (a mod 2 ^ 160)) < 2 ^ 62 ->
+  exec rec e w fr E_extcodecopy temp =
+    X_ok w (set_stack_mem fr r (spec_DATACOPY (f_mem fr) (get_code w (a mod 2 ^ 160)) memOff codeOff len)) []) /\
+  (forall rec e w fr temp n mStart mSize topics r,
+  0 <= n <= 4 -> Z.of_nat (length topics) = n -> Forall word topics ->
+  f_stack fr = mStart :: mSize :: topics ++ r ->
+  blen (f_mem fr) < 2 ^ 62 -> 0 <= mStart -> 0 < mSize -> mStart + mSize <= blen (f_mem fr) ->
+  exec rec e w fr (E_log n) temp =
+    X_ok (add_log w (mk_log (f_self fr) topics (spec_data (f_mem fr) mStart (Z.to_nat mSize)))) (set_stack fr r) []) /\
+  (forall rec e w fr temp n mStart topics r,
+  0 <= n <= 4 -> Z.of_nat (length topics) = n -> Forall word topics ->
+  f_stack fr = mStart :: 0 :: topics ++ r ->
+  exec rec e w fr (E_log n) temp = X_ok (add_log w (mk_log (f_self fr) topics [])) (set_stack fr r) []) /\
+  (forall rec e w fr temp a r, f_stack fr = a :: r -> word a ->
+  let b := a mod 2 ^ 160 in
+  exists w', exec rec e w fr E_suicide temp = X_ok w' (set_stack fr r) [] /\
+    get_balance w' (f_self fr) = 0 /\
+    (b <> f_self fr -> get_balance w' b = get_balance w b + get_balance w (f_self fr)) /\
+    (forall c, c <> b -> c <> f_self fr -> get_balance w' c = get_balance w c) /\
+    (exist w (f_self fr) = true \/ b = f_self fr -> has_suicided w' (f_self fr) = true)).
+Proof. exact state_ops_all. Qed.
+Print Assumptions C08_state_ops.
+
+Theorem C08_call_ops :
+  (forall rec e w rd tr depth ro caller addr input gas value, depth > CallCreateDepth ->
+  let o := do_call rec e w rd tr depth ro caller addr input gas value in
+  o_res o = R_err IE_Depth [] /\ o_gas o = gas /\ o_world o = w) /\
+  (forall rec e w rd tr depth ro caller addr input gas value,
+  depth <= CallCreateDepth -> get_balance w caller < value ->
+  let o := do_call rec e w rd tr depth ro caller addr input gas value in
+  o_res o = R_err IE_InsufficientBalance [] /\ o_gas o = gas /\ o_world o = w) /\
+  (forall rec e w rd tr depth ro caller addr input gas,
+  depth <= CallCreateDepth -> 0 <= get_balance w caller -> exist w addr = false -> is_precompile e addr = false -> e_eip158 e = true ->
+  let o := do_call rec e w rd tr depth ro caller addr input gas 0 in
+  o_res o = R_ok [] /\ o_gas o = gas /\ o_world o = w) /\
+  (forall rec e w rd tr depth ro caller addr input gas value,
+  depth <= CallCreateDepth -> value <= get_balance w caller -> exist w addr = true ->
+  do_call rec e w rd tr depth ro caller addr input gas value =
+    let w2 := transfer w caller addr value in
+    finish_call w (run_contract rec e w2 addr
+       (new_frame (get_code w2 addr) input addr caller value gas ro (depth + 1) tr) rd)) /\
+  (forall w fr rest ro rs o ret m, o_res o = R_ok ret ->
+  mem_set (f_mem fr) (big_Uint64 ro) (big_Uint64 rs) ret = Ok m ->
+  call_return w fr rest ro rs o =
+    X_ok (o_world o) (after_child fr (1 :: rest) m (wrap64 (f_gas fr + o_gas o)) (o_rd o) (o_trace o) (o_ro o)) ret) /\
+  (forall w fr rest ro rs o ret m, o_res o = R_revert ret ->
+  mem_set (f_mem fr) (big_Uint64 ro) (big_Uint64 rs) ret = Ok m ->
+  call_return w fr rest ro rs o =
+    X_ok (o_world o) (after_child fr (0 :: rest) m (wrap64 (f_gas fr + o_gas o)) (o_rd o) (o_trace o) (o_ro o)) ret) /\
+  (forall w fr rest ro rs o er x, o_res o = R_err er x ->
+  call_return w fr rest ro rs o =
+    X_ok (o_world o) (after_child fr (0 :: rest) (f_mem fr) (wrap64 (f_gas fr + o_gas o)) (o_rd o) (o_trace o) (o_ro o)) x) /\
+  (forall rec e w fr temp g addr value inOffset inSize retOffset retSize r,
+  f_stack fr = g :: addr :: value :: inOffset :: inSize :: retOffset :: retSize :: r ->
+  word addr -> word value -> blen (f_mem fr) < 2 ^ 62 -> 0 <= inOffset -> 0 < inSize -> inOffset + inSize <= blen (f_mem fr) ->
+  exec rec e w fr E_call temp =
+    call_return w fr r retOffset retSize
+      (do_call rec e w (f_rdata fr) (f_trace fr) (f_depth fr) (f_ro fr) (f_self fr) (addr mod 2 ^ 160)
+               (spec_data (f_mem fr) inOffset (Z.to_nat inSize))
+               (if value =? 0 then temp else wrap64 (temp + CallStipend)) value)) /\
+  (forall rec e w fr temp value offset size r input,
+  f_stack fr = value :: offset :: size :: r -> e_eip150 e = true ->
+  mem_get (f_mem fr) (big_Int64 offset) (big_Int64 size) = Ok input ->
+  let o := do_create rec e w (f_rdata fr) (f_trace fr) (f_depth fr) (f_ro fr) (f_self fr) input (f_gas fr - f_gas fr / 64) value in
+  forall w' fr' res, exec rec e w fr E_create temp = X_ok w' fr' res ->
+    w' = o_world o /\ f_gas fr' = wrap64 (f_gas fr - (f_gas fr - f_gas fr / 64) + o_gas o)).
+Proof. exact call_ops_all. Qed.
+Print Assumptions C08_call_ops.
+
